@@ -126,7 +126,7 @@ def apply(t, s, depth=0):
     return t
 
 
-def canon(text):
+def canon(text, negints_are_vars=True):
     """Rename variables by first occurrence (outside quotes) so that variants compare equal."""
     out, names, i = [], {}, 0
     # unbound variables of an answer are printed as negative integers by engine.query (the family has no
@@ -134,7 +134,7 @@ def canon(text):
     for tok in re.findall(r"'[^']*'|\"[^\"]*\"|-\d+|[A-Za-z_][A-Za-z0-9_]*|.", text):
         if re.fullmatch(r"'[a-z][A-Za-z0-9_]*'", tok):
             tok = tok[1:-1]
-        if ((tok[0].isupper() or tok[0] == "_") and tok[0] not in "'\"") or re.fullmatch(r"-\d+", tok):
+        if ((tok[0].isupper() or tok[0] == "_") and tok[0] not in "'\"") or (negints_are_vars and re.fullmatch(r"-\d+", tok)):
             names.setdefault(tok, "V%d" % len(names))
             out.append(names[tok])
         else:
